@@ -6470,6 +6470,7 @@ class SFTPServerHandler(SFTPHandler):
             except KeyError:
                 raise SFTPInvalidParameter('Invalid check value') from None
         else:
+            packet.check_end()
             check = FXRP_NO_CHECK
 
         self.logger.debug1('Received realpath for %s%s%s', path,
